@@ -14,6 +14,7 @@ import (
 	"os"
 	"reflect"
 	"runtime"
+	"strings"
 	"sync"
 	"time"
 	"unsafe"
@@ -320,6 +321,59 @@ func Symbolic(ptr interface{}, label string) {
 		panic("zzverif.Symbolic: need pointer")
 	}
 	fill(v.Elem(), label)
+}
+
+// FieldNames lists the field names of a struct value (or pointer to one), comma separated, in
+// declaration order - for shape guards that must fail as a check result, not as a load error.
+func FieldNames(v interface{}) string {
+	t := reflect.TypeOf(v)
+	if t.Kind() == reflect.Ptr {
+		t = t.Elem()
+	}
+	var names []string
+	for i := 0; i < t.NumField(); i++ {
+		names = append(names, t.Field(i).Name)
+	}
+	return strings.Join(names, ",")
+}
+
+// SameScalars reports whether *a and *b (pointers to values of the same type) agree on every
+// bool, integer, float and string reachable by value - the leaves Symbolic fills. Pointers,
+// slices, maps and interfaces are skipped (compare those explicitly).
+func SameScalars(a, b interface{}) bool {
+	va, vb := reflect.ValueOf(a), reflect.ValueOf(b)
+	if va.Kind() != reflect.Ptr || vb.Kind() != reflect.Ptr || va.Type() != vb.Type() {
+		panic("zzverif.SameScalars: need two pointers of the same type")
+	}
+	return same(va.Elem(), vb.Elem())
+}
+
+func same(a, b reflect.Value) bool {
+	switch a.Kind() {
+	case reflect.Bool:
+		return a.Bool() == b.Bool()
+	case reflect.String:
+		return a.String() == b.String()
+	case reflect.Int, reflect.Int8, reflect.Int16, reflect.Int32, reflect.Int64:
+		return a.Int() == b.Int()
+	case reflect.Uint, reflect.Uint8, reflect.Uint16, reflect.Uint32, reflect.Uint64, reflect.Uintptr:
+		return a.Uint() == b.Uint()
+	case reflect.Float32, reflect.Float64:
+		return a.Float() == b.Float()
+	case reflect.Struct:
+		for i := 0; i < a.NumField(); i++ {
+			if !same(a.Field(i), b.Field(i)) {
+				return false
+			}
+		}
+	case reflect.Array:
+		for i := 0; i < a.Len(); i++ {
+			if !same(a.Index(i), b.Index(i)) {
+				return false
+			}
+		}
+	}
+	return true
 }
 
 func fill(v reflect.Value, label string) {
